@@ -1,5 +1,6 @@
 """C16  Weekday, day of year, fractional year and sidereal time follow the JDE."""
 import math
+from fractions import Fraction
 from pyvc.api import REGISTRY, PyRaise
 from pyvc.values import Num, and_, or_, not_, ite, implies, floor_, sel
 from specs.calendar import (JDN, JDN_julian, JDN_gregorian, civil_valid, civil_len, day_of_year, year_len,
@@ -228,3 +229,53 @@ def b_sidereal(rng, tier):
         diff = (a - e.mean_sidereal_time()) * 86400.0
         yield (("eqeq", jd), abs(diff) < 1.2 and abs(diff - float(dpsi) * 3600 * math.cos(math.radians(float(eps))) / 15) < 1e-6,
                diff)
+
+
+# ---- mean sidereal time is Meeus' (12.2)/(12.3) expression (IAU 1982), for every JDE
+def _sid_cuts():
+    def cut_s(it, frame):
+        """the cubic in T is compared once with Meeus' coefficients; the rest of the function goes on with one symbol"""
+        sc = Num.of(frame.locals["s"])
+        jd0 = Num.of(frame.locals["jd0"])
+        T = (jd0 - 2451545) / 36525
+        spec = T * (Num.of(Fraction("8640184.812866")) + T * (Num.of(Fraction("0.093104")) - Num.of(Fraction("0.0000062")) * T))
+        S = Num.real_var("S")
+        it.info["S"] = S
+        it.info["jd0"] = jd0
+        it.vc("s == 8640184.812866 T + 0.093104 T^2 - 0.0000062 T^3 seconds, T = (JD0 - 2451545)/36525", sc == spec)
+        return (True, S.as_float())
+    return {("Epoch.mean_sidereal_time", "s", 1): cut_s}
+
+
+@P.harness("mean_sidereal_time/IAU1982-expression", functions=[EPOCH + ".mean_sidereal_time"], cuts=_sid_cuts, crosscheck=0,
+           timeout=60)
+def h_sidereal_expr(ctx):
+    """theta (in revolutions) == [24110.54841 + 8640184.812866 T + 0.093104 T^2 - 0.0000062 T^3] / 86400
+    + 1.00273790935 (JD - JD0)  (mod 1), T = (JD0 - 2451545)/36525 at the preceding 0h (JD0 = floor(JD - 1/2) + 1/2); the path
+    that drops an interval below 1e-10 day is allowed its 1.003e-10 revolution"""
+    j = ctx.dyadic("jde", 0, 5400000, 20, sample=(0, 5.4e6))
+    e = epoch_at(ctx, j)
+    r = ctx.method(e, "mean_sidereal_time")
+    if ctx.native:
+        jd0 = math.floor(j - 0.5) + 0.5
+        T = (jd0 - 2451545.0) / 36525.0
+        spec = (24110.54841 + T * (8640184.812866 + T * (0.093104 - 0.0000062 * T))) / 86400.0 + 1.00273790935 * (j - jd0)
+        w = r - spec
+        ctx.vc("mean sidereal time == IAU 1982 expression (mod 1), 2e-9 revolution in binary64", abs(w - round(w)) < 2e-9)
+        return
+    jd0 = floor_(j - Fraction(1, 2)) + Fraction(1, 2)
+    ctx.vc("JD0 is the preceding 0h UT: floor(JD - 1/2) + 1/2", ctx.it.info["jd0"] == jd0)
+    jd0 = ctx.it.info["jd0"]                  # (the code's own term for it: equal by the obligation just stated)
+    dl = j - jd0
+    small = and_(dl < Fraction(1, 10 ** 10), dl > -Fraction(1, 10 ** 10))
+    base = (Num.of(Fraction("24110.54841")) + ctx.it.info["S"]) / 86400
+    tol = Fraction(11, 10 ** 11)
+
+    def near_integer(w):
+        d = w - floor_(w + Fraction(1, 2))
+        return and_(d <= tol, d >= -tol)
+    # the code drops an interval below 1e-10 day; on the 2^-20 day grid of the symbolic input such an interval is zero
+    ctx.vc("an interval below 1e-10 day is zero on the dyadic grid", implies(small, dl == 0))
+    ctx.vc("mean sidereal time == IAU 1982 expression (mod 1), interval since 0h dropped (zero)", implies(small, near_integer(r - base)))
+    ctx.vc("mean sidereal time == IAU 1982 expression (mod 1), interval since 0h >= 1e-10 day",
+           implies(not_(small), near_integer(r - base - Num.of(Fraction("1.00273790935")) * dl)))
